@@ -237,6 +237,7 @@ extern "C" int harness_main() {
     }
     verif_assert(ok_log, "C09.log_overflow");
     const bool finding_def = def == 6;
+    if (finding_def) verif_reach("unchecked_consumer");  // before the assertion: a concretely failing assertion ends the path
     for (int m = 1; m < NMODE; m++) {
         if (finding_def) {
             verif_assert(ok_count[m] & ok_same[m], "C09.unchecked_input_consumer_same_stream");
@@ -264,7 +265,6 @@ extern "C" int harness_main() {
     }
     if (def == 3 && I.nout >= 1) verif_reach("pass_through_ticked");
     if (def == 4 && I.nout >= 1) verif_reach("captured_port_ticked");
-    if (def == 6) verif_reach("unchecked_consumer");
     {
         int nested_evals = 0;
         for (int i = 0; i < g_log[NMODE - 1].n; i++) nested_evals += (g_log[NMODE - 1].ev[i].kind == EV_GRAPH_BEGIN && g_log[NMODE - 1].ev[i].depth > 0);
